@@ -150,6 +150,20 @@ func (fr *Frame) exec(in ssa.Instruction, st *State, g string) {
 		case *types.Slice:
 			fr.safe("index", g, and(app("<=", "0", i.t), app("<", i.t, slen(v.t))), x.Pos(), "slice index")
 			fr.vals[x] = SV{t: fc.elem(sarr(v.t), idx(soff(v.t), i.t)), typ: x.Type()}
+			// trigger hint: indexing a re-slice s[lo:hi][i] touches element lo+i of s. The equation follows from the
+			// definition of idx and of the re-slice's offset (soff = soff(s)+lo); it only introduces the ground term
+			// idx(soff(s), lo+i) so that quantified facts about the elements of s can be instantiated.
+			if sl, ok := x.X.(*ssa.Slice); ok && sl.Low != nil {
+				if _, isSl := sl.X.Type().Underlying().(*types.Slice); isSl {
+					if base, ok := fr.vals[sl.X]; ok {
+						_, isC := sl.Low.(*ssa.Const)
+						if _, ok := fr.vals[sl.Low]; ok || isC {
+							lo := fr.val(sl.Low)
+							fc.emit(fmt.Sprintf("(assert (= (idx %s (+ %s %s)) (+ %s %s %s)))", soff(base.t), lo.t, i.t, soff(base.t), lo.t, i.t))
+						}
+					}
+				}
+			}
 		case *types.Pointer:
 			arr := u.Elem().Underlying().(*types.Array)
 			fr.safe("nil", g, not(eq(v.t, nilPtr)), x.Pos(), "index of nil array pointer")
@@ -197,6 +211,8 @@ func (fr *Frame) exec(in ssa.Instruction, st *State, g string) {
 		fr.safe("slice", g, and(app("<=", "0", ln.t), app("<=", ln.t, cp.t)), x.Pos(), "makeslice: len out of range")
 		p := fc.alloc(st)
 		et := x.Type().Underlying().(*types.Slice).Elem()
+		// ghost counter of elements allocated by make (spec builtin allocated())
+		fc.setComp(st, "G|alloc", "Int", app("+", fc.comp(st, "G|alloc", "Int"), cp.t))
 		pt := fc.define(fr.name(x)+"_arr", "Ptr", p)
 		if isLeaf(et) {
 			k, s := fc.bKey(et)
@@ -263,14 +279,16 @@ func (fr *Frame) storeZero(st *State, addr string, t types.Type) {
 	if isStructT(t) {
 		u := t.Underlying().(*types.Struct)
 		for i := 0; i < u.NumFields(); i++ {
-			fr.storeZero(st, mkFld(addr, fc.tc.fieldKey(t, i)), u.Field(i).Type())
+			// fc.fld / fc.elem (not mkFld / mkElem): every constructed address needs its ground root axiom, otherwise a
+			// zero-initialised field of a fresh struct may alias a caller-owned block in a counter-model
+			fr.storeZero(st, fc.fld(addr, t, i), u.Field(i).Type())
 		}
 		return
 	}
 	if a, ok := isArrayT(t); ok && !isLeaf(a.Elem()) {
 		if a.Len() <= 16 {
 			for i := int64(0); i < a.Len(); i++ {
-				fr.storeZero(st, mkElem(addr, num(i)), a.Elem())
+				fr.storeZero(st, fc.elem(addr, num(i)), a.Elem())
 			}
 		}
 		return
@@ -366,6 +384,16 @@ func (fr *Frame) binop(x *ssa.BinOp, st *State, g string) {
 		}
 	}
 	lo, hi, ok := rangeOf(x.Type())
+	if !ok && isFloat64T(x.Type()) && (x.Op == token.ADD || x.Op == token.SUB) {
+		// float64 + and -: the correctly rounded exact result (finite operands, no overflow; see f64round)
+		op := "+"
+		if x.Op == token.SUB {
+			op = "-"
+		}
+		exact := fc.define(fr.name(x)+"_exact", "Real", app(op, a.t, b.t))
+		fr.vals[x] = SV{t: fr.f64round(fr.name(x), exact, app("is_int", exact)), typ: x.Type()}
+		return
+	}
 	if !ok {
 		// floats etc.
 		fc.unsupported("arithmetic on " + x.Type().String())
@@ -454,8 +482,13 @@ func (fr *Frame) unop(x *ssa.UnOp, st *State, g string) {
 	case token.MUL:
 		fr.safe("nil", g, not(eq(v.t, nilPtr)), x.Pos(), "nil pointer dereference")
 		et := x.X.Type().Underlying().(*types.Pointer).Elem()
-		fr.setVal(x, tc.sortOf(x.Type()), fc.load(st, v.t, et))
+		ld := fc.load(st, v.t, et)
+		fr.setVal(x, tc.sortOf(x.Type()), ld)
 		fc.assume(g, tc.wf(fr.vals[x].t, x.Type(), fc.watermark(st)))
+		if strings.HasPrefix(ld, "(select H0_") {
+			// read straight from a component of the ENTRY heap: whatever it holds was allocated before entry
+			fc.assume(g, tc.wf(fr.vals[x].t, x.Type(), compInit("W")))
+		}
 	case token.NOT:
 		fr.setVal(x, "Bool", not(v.t))
 	case token.SUB:
@@ -502,6 +535,10 @@ func (fr *Frame) convert(x *ssa.Convert, st *State, g string) {
 			return
 		}
 		fr.setVal(x, "Int", app("wrapw", v.t, bignum(tlo), bignum(thi)))
+	case fok && tok && fb.Info()&types.IsInteger != 0 && tb.Kind() == types.Float64:
+		// integer -> float64: the nearest float64 (exact up to 2^53)
+		exact := fc.define(fr.name(x)+"_exact", "Real", app("to_real", v.t))
+		fr.vals[x] = SV{t: fr.f64round(fr.name(x), exact, "true"), typ: x.Type()}
 	case fok && fb.Info()&types.IsString != 0:
 		// string -> []byte / []rune
 		p := fc.alloc(st)
@@ -531,6 +568,34 @@ func (fr *Frame) convert(x *ssa.Convert, st *State, g string) {
 		fc.unsupported("conversion " + x.X.Type().String() + " -> " + x.Type().String())
 		fr.freshVal(x, st, g)
 	}
+}
+
+func isFloat64T(t types.Type) bool {
+	b, ok := types.Unalias(t).Underlying().(*types.Basic)
+	return ok && b.Kind() == types.Float64
+}
+
+// f64round returns a Real constant r standing for the float64 obtained by rounding the real number x (trusted model of
+// IEEE-754 binary64 rounding for finite values without overflow; NaN/Inf are not modelled). Only facts that hold for every
+// rounding mode are assumed: every integer of magnitude <= 2^53 is representable (so rounding is the identity there), and
+// rounding is monotone (so it preserves the sign and the comparison with +-2^53).
+func (fr *Frame) f64round(name, x, isInt string) string {
+	fc := fr.fc
+	fc.assumes["trusted model: float64 conversion/+/- round monotonically and are exact on integers of magnitude <= 2^53 (finite values only)"] = true
+	const p53 = "9007199254740992.0"
+	r := fc.fresh(name, "Real")
+	fc.assume("true", implies(and(isInt, app("<=", "(- "+p53+")", x), app("<=", x, p53)), eq(r, x)))
+	fc.assume("true", implies(app(">=", x, p53), app(">=", r, p53)))
+	fc.assume("true", implies(app("<=", x, "(- "+p53+")"), app("<=", r, "(- "+p53+")")))
+	fc.assume("true", implies(and(app("<=", "(- "+p53+")", x), app("<=", x, p53)), and(app("<=", "(- "+p53+")", r), app("<=", r, p53))))
+	fc.assume("true", and(implies(app(">=", x, "0.0"), app(">=", r, "0.0")), implies(app("<=", x, "0.0"), app("<=", r, "0.0"))))
+	// below 2^53 the spacing of float64 is at most 1, so the rounding error is below 1
+	fc.assume("true", implies(and(app("<=", "(- "+p53+")", x), app("<=", x, p53)), and(app("<", app("-", r, x), "1.0"), app("<", app("-", x, r), "1.0"))))
+	if isInt == "true" {
+		// an integer rounds to an integer (every float64 of magnitude >= 2^52 is an integer)
+		fc.assume("true", app("is_int", r))
+	}
+	return r
 }
 
 func (fr *Frame) lookup(x *ssa.Lookup, st *State, g string) {
@@ -715,7 +780,11 @@ func (fr *Frame) ret(x *ssa.Return, st *State, g string) {
 			fc.oblige(fr, "post", label, g, t, x.Pos(), cl.Text, props)
 		}
 	}
-	fc.cover(fmt.Sprintf("return@%d", x.Block().Index), g)
+	if name := fmt.Sprintf("return@%d", x.Block().Index); fr.spec != nil && fr.spec.Unreachable[name] {
+		fc.oblige(fr, "unreachable", name, g, "false", x.Pos(), "declared unreachable (defensive branch)", fr.props())
+	} else {
+		fc.cover(name, g)
+	}
 }
 
 // applyHints checks and then assumes the intermediate assertions of the contract at this program point.
@@ -741,10 +810,23 @@ func (fr *Frame) applyHints(where, calleeKey string, b *ssa.BasicBlock, st *Stat
 		}
 		t, err := env.evalBool(h.Clause.E)
 		fr.curLocals, fr.curLocalAddrs = nil, nil
+		if err != nil && where == "return" {
+			// a `hint return` may name a local that is not in scope at an early return: it is skipped there,
+			// and reported stale (verify.go) only if it could be evaluated at NO return.
+			if fr.hintErr == nil {
+				fr.hintErr = map[int]error{}
+			}
+			fr.hintErr[i] = err
+			continue
+		}
 		if err != nil {
 			fc.eng.stale(fr.spec, h.Clause, err)
 			continue
 		}
+		if fr.hintOK == nil {
+			fr.hintOK = map[int]bool{}
+		}
+		fr.hintOK[i] = true
 		label := h.Clause.Label
 		if label == "" {
 			label = fmt.Sprint(i)
@@ -864,6 +946,16 @@ func (fr *Frame) localsAt(h *ssa.BasicBlock, pidx int) (map[string]func(*State) 
 					}
 				}
 			}
+			// a debug ref to a phi of the header itself (e.g. `i` of a `for i := range n` loop, whose phi comment is
+			// "rangeint.iter", not the source name): on an incoming edge the name denotes the value flowing in along
+			// that edge, exactly like the by-comment lookup below; otherwise inv-init sees an undefined value and
+			// inv-keep would be checked against the OLD iteration's value (vacuous).
+			if phi, isPhi := d.X.(*ssa.Phi); isPhi && b == h && phi.Block() == h && pidx >= 0 && !d.IsAddr {
+				sv := fr.val(phi.Edges[pidx])
+				sv.typ = phi.Type()
+				out[id.Name] = func(*State) SV { return sv }
+				continue
+			}
 			if _, known := fr.vals[d.X]; !known {
 				if _, isC := d.X.(*ssa.Const); !isC {
 					if _, isG := d.X.(*ssa.Global); !isG {
@@ -884,6 +976,29 @@ func (fr *Frame) localsAt(h *ssa.BasicBlock, pidx int) (map[string]func(*State) 
 				sv := fr.val(x)
 				out[id.Name] = func(*State) SV { return sv }
 			}
+		}
+	}
+	// composite-literal slices (`for _, x := range []T{...}`): the backing array has no source name;
+	// expose the k-th such allocation that dominates h as `slicelit` (k == 0) / `slicelit_<k>` (a *[N]T value).
+	nlit := 0
+	for _, b := range fr.fn.Blocks {
+		if b == h || !b.Dominates(h) {
+			continue
+		}
+		for _, in := range b.Instrs {
+			a, ok := in.(*ssa.Alloc)
+			if !ok || a.Comment != "slicelit" {
+				continue
+			}
+			if _, known := fr.vals[a]; known {
+				sv := fr.val(a)
+				name := "slicelit"
+				if nlit > 0 {
+					name = fmt.Sprintf("slicelit_%d", nlit)
+				}
+				out[name] = func(*State) SV { return sv }
+			}
+			nlit++
 		}
 	}
 	// named phis of dominating blocks (e.g. the result of an earlier loop)
@@ -929,6 +1044,68 @@ func (fr *Frame) localsAt(h *ssa.BasicBlock, pidx int) (map[string]func(*State) 
 		if li := fr.loops[h]; li != nil {
 			out[fmt.Sprintf("%s_%d", name, li.ordinal)] = func(*State) SV { return sv }
 		}
+		if alias := strings.ReplaceAll(name, ".", "_"); alias != name {
+			// `for range n` loops: the phi comment "rangeint.iter" is not an identifier; expose it as rangeint_iter
+			out[alias] = func(*State) SV { return sv }
+			if li := fr.loops[h]; li != nil {
+				out[fmt.Sprintf("%s_%d", alias, li.ordinal)] = func(*State) SV { return sv }
+			}
+		}
+	}
+	// source names bound to a header phi by a debug ref in the header (e.g. `i` of `for i := range n`, whose phi is
+	// commented "rangeint.iter"): same value as the phi on this edge
+	for _, in := range h.Instrs {
+		d, ok := in.(*ssa.DebugRef)
+		if !ok || d.IsAddr {
+			continue
+		}
+		id, ok := d.Expr.(*ast.Ident)
+		phi, isPhi := d.X.(*ssa.Phi)
+		if !ok || !isPhi || phi.Block() != h {
+			continue
+		}
+		var sv SV
+		if pidx >= 0 {
+			sv = fr.val(phi.Edges[pidx])
+			sv.typ = phi.Type()
+		} else {
+			var known bool
+			if sv, known = fr.vals[phi]; !known {
+				continue
+			}
+		}
+		v := sv
+		out[id.Name] = func(*State) SV { return v }
+		delete(addrs, id.Name)
+	}
+	// range loops over an unnamed slice expression (`for _, x := range f()`): expose the ranged slice as `rangeexpr`
+	// (and `rangeexpr_<loop ordinal>`). go/ssa lowers the loop to `n = len(s)` in the preheader and `i+1 < n` in the header.
+	for _, in := range h.Instrs {
+		b, ok := in.(*ssa.BinOp)
+		if !ok || b.Op != token.LSS {
+			continue
+		}
+		if xb, ok := b.X.(*ssa.BinOp); !ok || xb.Op != token.ADD {
+			continue
+		} else if p, ok := xb.X.(*ssa.Phi); !ok || p.Comment != "rangeindex" {
+			continue
+		}
+		c, ok := b.Y.(*ssa.Call)
+		if !ok || len(c.Call.Args) != 1 {
+			continue
+		}
+		if bi, ok := c.Call.Value.(*ssa.Builtin); !ok || bi.Name() != "len" {
+			continue
+		}
+		if _, isSl := c.Call.Args[0].Type().Underlying().(*types.Slice); !isSl {
+			continue
+		}
+		if sv, known := fr.vals[c.Call.Args[0]]; known {
+			out["rangeexpr"] = func(*State) SV { return sv }
+			if li := fr.loops[h]; li != nil {
+				out[fmt.Sprintf("rangeexpr_%d", li.ordinal)] = func(*State) SV { return sv }
+			}
+		}
 	}
 	// phis of enclosing loop headers, addressable as <name>_<loop ordinal>
 	for oh, li := range fr.loops {
@@ -947,7 +1124,7 @@ func (fr *Frame) localsAt(h *ssa.BasicBlock, pidx int) (map[string]func(*State) 
 			if !known {
 				continue
 			}
-			n := fmt.Sprintf("%s_%d", phi.Comment, li.ordinal)
+			n := fmt.Sprintf("%s_%d", strings.ReplaceAll(phi.Comment, ".", "_"), li.ordinal)
 			out[n] = func(*State) SV { return sv }
 			if _, dup := out[phi.Comment]; !dup {
 				out[phi.Comment] = func(*State) SV { return sv }
